@@ -206,8 +206,11 @@ def run(ctx):
     stats = dict(ops=0, creates=0, stopped=0, grown=0, reloads=0, sampling_histories=0)
     distinct = 0; seen = set()
     import time as _t; _t0 = _t.time()
+    import glob, json
+    corpus = [json.load(open(f))["seed"] for f in sorted(glob.glob("/verif/corpus/C06/*.json"))]
+    stats["corpus_cases"] = len(corpus)
     for i in range(n):
-        seed = ctx.rng.randint(0, 2 ** 40)
+        seed = corpus[i] if i < len(corpus) else ctx.rng.randint(0, 2 ** 40)
         term, info, viol = run_case(seed)
         terms.append(term); infos.append(info)
         stats["ops"] += len(info["ops"]); stats["creates"] += sum(1 for o in info["ops"] if o[0] == "create")
